@@ -200,6 +200,110 @@ theorem unfinished_of_next {P : Pool ι κ} {σ : State κ} {t : Nat} {i : Instr
   rw [List.getElem?_eq_none hle] at h
   cases h
 
+/-! ### Fields and the stores behind them: the discipline of the combined table -/
+
+section full
+variable {σ : Type} [DecidableEq σ]
+
+theorem beq_inl (a b : ι) :
+    (@BEq.beq (ι ⊕ σ) instBEqOfDecidableEq (Sum.inl a) (Sum.inl b)) = (a == b) := by
+  show decide ((Sum.inl a : ι ⊕ σ) = Sum.inl b) = decide (a = b)
+  by_cases h : a = b
+  · subst h; simp
+  · have h' : (Sum.inl a : ι ⊕ σ) ≠ Sum.inl b := fun e => h (Sum.inl.inj e)
+    simp [h]
+
+theorem beq_inr (a b : σ) :
+    (@BEq.beq (ι ⊕ σ) instBEqOfDecidableEq (Sum.inr a) (Sum.inr b)) = (a == b) := by
+  show decide ((Sum.inr a : ι ⊕ σ) = Sum.inr b) = decide (a = b)
+  by_cases h : a = b
+  · subst h; simp
+  · have h' : (Sum.inr a : ι ⊕ σ) ≠ Sum.inr b := fun e => h (Sum.inr.inj e)
+    simp [h]
+
+theorem beq_inl_inr (a : ι) (b : σ) :
+    (@BEq.beq (ι ⊕ σ) instBEqOfDecidableEq (Sum.inl a) (Sum.inr b)) = false := by
+  show decide ((Sum.inl a : ι ⊕ σ) = Sum.inr b) = false
+  simp
+
+theorem beq_inr_inl (a : σ) (b : ι) :
+    (@BEq.beq (ι ⊕ σ) instBEqOfDecidableEq (Sum.inr a) (Sum.inl b)) = false := by
+  show decide ((Sum.inr a : ι ⊕ σ) = Sum.inl b) = false
+  simp
+
+theorem pairOK_mapLoc_inl (r s : Row ι κ) :
+    pairOK (r.mapLoc (Sum.inl : ι → ι ⊕ σ)) (s.mapLoc Sum.inl) = pairOK r s := by
+  simp only [pairOK, rowConflict, commonLock, Row.mapLoc]
+  rw [beq_inl]
+
+theorem pairOK_mapLoc_inr (r s : Row σ κ) :
+    pairOK (r.mapLoc (Sum.inr : σ → ι ⊕ σ)) (s.mapLoc Sum.inr) = pairOK r s := by
+  simp only [pairOK, rowConflict, commonLock, Row.mapLoc]
+  rw [beq_inr]
+
+/-- a field and a store are different locations: their accesses never conflict -/
+theorem pairOK_inl_inr (r : Row ι κ) (s : Row σ κ) :
+    pairOK (r.mapLoc (Sum.inl : ι → ι ⊕ σ)) (s.mapLoc Sum.inr) = true := by
+  simp only [pairOK, rowConflict, Row.mapLoc]
+  rw [beq_inl_inr]
+  simp
+
+theorem pairOK_inr_inl (r : Row σ κ) (s : Row ι κ) :
+    pairOK (r.mapLoc (Sum.inr : σ → ι ⊕ σ)) (s.mapLoc Sum.inl) = true := by
+  simp only [pairOK, rowConflict, Row.mapLoc]
+  rw [beq_inr_inl]
+  simp
+
+/-- If the field table and the store rows are each disciplined, so is the table over fields
+    and stores together. -/
+theorem disciplined_fullTable {T : List (Row ι κ)} {E : List (Escape σ κ)}
+    (hT : disciplined T = true) (hE : disciplined (storeRows E) = true) :
+    disciplined (fullTable T E) = true := by
+  unfold disciplined at *
+  apply List.all_eq_true.mpr
+  intro r hr
+  apply List.all_eq_true.mpr
+  intro s hs
+  unfold fullTable at hr hs
+  rcases List.mem_append.mp hr with hr | hr <;> rcases List.mem_append.mp hs with hs | hs
+  · obtain ⟨r0, hr0, rfl⟩ := List.mem_map.mp hr
+    obtain ⟨s0, hs0, rfl⟩ := List.mem_map.mp hs
+    rw [pairOK_mapLoc_inl]
+    exact List.all_eq_true.mp (List.all_eq_true.mp hT r0 hr0) s0 hs0
+  · obtain ⟨r0, _, rfl⟩ := List.mem_map.mp hr
+    obtain ⟨s0, _, rfl⟩ := List.mem_map.mp hs
+    exact pairOK_inl_inr r0 s0
+  · obtain ⟨r0, _, rfl⟩ := List.mem_map.mp hr
+    obtain ⟨s0, _, rfl⟩ := List.mem_map.mp hs
+    exact pairOK_inr_inl r0 s0
+  · obtain ⟨r0, hr0, rfl⟩ := List.mem_map.mp hr
+    obtain ⟨s0, hs0, rfl⟩ := List.mem_map.mp hs
+    rw [pairOK_mapLoc_inr]
+    exact List.all_eq_true.mp (List.all_eq_true.mp hE r0 hr0) s0 hs0
+
+theorem disciplined_of_aliasDisciplined {E : List (Escape σ κ)} (h : aliasDisciplined E = true) :
+    disciplined (storeRows E) = true := by
+  unfold aliasDisciplined at h
+  exact (Bool.and_eq_true _ _ ▸ h).2
+
+theorem noEscapedMutation_of_aliasDisciplined {E : List (Escape σ κ)} (h : aliasDisciplined E = true) :
+    noEscapedMutation E = true := by
+  unfold aliasDisciplined at h
+  exact (Bool.and_eq_true _ _ ▸ h).1
+
+/-- every member of the owner set of a store comes from an escape row on that store -/
+theorem mem_accessors {E : List (Escape σ κ)} {s : σ} {x : Role × Kind × List (κ × Mode)}
+    (h : x ∈ accessors E s) :
+    ∃ e ∈ E, e.store = s ∧ e.fresh = false ∧ x = (e.role, (if e.mutated then Kind.write else Kind.read), e.locks) := by
+  unfold accessors storeRows at h
+  obtain ⟨r, hr, rfl⟩ := List.mem_map.mp h
+  obtain ⟨hr1, hr2⟩ := List.mem_filter.mp hr
+  obtain ⟨e, he, rfl⟩ := List.mem_map.mp hr1
+  simp only [Escape.toRow, Bool.and_eq_true, beq_iff_eq, Bool.not_eq_true'] at hr2
+  exact ⟨e, he, hr2.1, hr2.2, rfl⟩
+
+end full
+
 theorem rank_bound (rank : κ → Nat) (O : List (κ × κ)) :
     ∀ p ∈ O, rank p.2 ≤ (O.map fun q => rank q.2).sum := by
   induction O with
